@@ -3,7 +3,7 @@ import steps_C16
 
 ID = "C16"
 PROP = {
-    "modules": ["Gnmi.Props.C16", "Gnmi.Props.C16Mgr"],
+    "modules": ["Gnmi.Props.C16", "Gnmi.Props.C16Mgr", "Gnmi.Props.C16Prog"],
     "extra": [steps_C16.race_step],
     "theorems": ["Gnmi.C16." + t for t in [
         "inv_init", "inv_step", "inv_reach", "no_panic", "map_wellformed",
@@ -14,7 +14,12 @@ PROP = {
         "closed_le_one", "last_release_closes_and_forgets", "earlier_release_keeps_open", "closed_is_forgotten",
         "next_request_dials_afresh", "all_released_all_closed",
         "done_idempotent", "done_again_noop", "done_after_error_noop",
-        "failed_request_holds_nothing", "failed_object_unregistered"]] + ["Gnmi.C16Mgr." + t for t in [
+        "failed_request_holds_nothing", "failed_object_unregistered",
+        # progress in run form (Props/C16Prog.lean)
+        "step_oframe", "step_rframe", "dial_enabled", "dial_rank_decreases", "others_keep_dial", "dial_step_persists",
+        "dial_steps_bound", "dial_steps_le_four", "ready_after_rank", "ready_after_four", "ready_stable",
+        "dial_completes", "waiter_woken", "wait_only_r2", "waiter_pc_stable", "ready_wake_stable",
+        "waiter_woken_fair", "waiter_enabled_after_dial"]] + ["Gnmi.C16Mgr." + t for t in [
         # the holder's side: manager/manager.go releases every connection it acquires, exactly once
         "ginv_init", "ginv_step", "ginv_reach", "acquire_iff", "release_iff", "none_iff",
         "held_le_one", "held_iff_in_session",
@@ -49,6 +54,8 @@ PROP = {
         "the Dial function returns a non-nil *grpc.ClientConn iff it returns a nil error",
         "callers invoke only the done func they were handed (any number of times, from any goroutine)",
         "a requester blocked on a shared dial does not watch its own context (as coded); only the creator's context reaches Dial",
+        "progress (C16Prog): the return of the Dial function is a step of the dial goroutine (d1b); a Dial call that never "
+        "returns is a dialer that is never scheduled — excluded by the fairness hypothesis of the leads-to reading, not by the code",
         "manager side: a ConnectionManager may return a connection although the context was cancelled meanwhile (modelled: dialOk "
         "has no context guard); createConn's loop over next hops is one program counter (Pc.dial)",
     ],
@@ -73,7 +80,13 @@ PROP = {
                       "released_when_idle, remove_releases, release_once, for every fault script and schedule, including a dial that "
                       "succeeds after its context was cancelled), tied to the code by the mg correspondence, which keeps a ledger of "
                       "every successful Connection return and every done call of the real manager.Manager, also with the real "
-                      "connection.Manager underneath (ends empty, every connection Shutdown).",
+                      "connection.Manager underneath (ends empty, every connection Shutdown). "
+                      "Progress in run form (Props/C16Prog.lean): the dial goroutine of a not yet ready object always has an enabled step "
+                      "(dial_enabled), each of its steps decreases a variant <= 4 (dial_rank_decreases), no other thread changes its pc or "
+                      "disables it (others_keep_dial, dial_step_persists), so along every schedule the object is ready after 4 dial steps "
+                      "(dial_steps_bound, ready_after_four), every waiter is woken by a run of <= 4 dial steps (waiter_woken) and, for all "
+                      "schedules, a waiter that has not moved is either enabled for good or its dialer is (waiter_woken_fair: the "
+                      "weak-fairness leads-to).",
         "level_note": "Proof of the protocol LTS; that the LTS's atomic sections are the code's is validated by the correspondence, not "
                       "proved. Trusted: Lean kernel (axioms propext, Quot.sound, Classical.choice only), Model/ConnLTS.lean, Go runtime "
                       "(mutex, channels), grpc-go Close/GetState.",
